@@ -7,6 +7,10 @@ sys.path.insert(0, os.path.join(HERE, "harness"))
 from session import load_program, run_harness
 
 
+import faulthandler, signal
+faulthandler.register(signal.SIGUSR1, all_threads=True)
+
+
 def main():
     mir_dir, mod, name, tier, seed, outp, jobs, scratch = sys.argv[1:9]
     m = importlib.import_module(mod)
